@@ -104,7 +104,7 @@ def c03_cases(tier, seed):
 def oracle_c03(case):
     samples, fw, layout, opts = case
     if isinstance(samples, dict):
-        reg, gen, roots = infer(samples)
+        reg, gen, roots = infer(samples, **({"merge": [ModelFieldsEquals()]} if len(str(samples)) > 3000 else {}))
     else:
         reg, gen, roots = infer({"Root": samples})
     try:
@@ -195,8 +195,12 @@ def c03(tier, seed):
     for m in multi:
         for fw in FRAMEWORKS:
             cases.append((m, fw, "flat", {}))
+    # many models with the same generated name (more than one alphabet of model indexes), kept apart by the exact-match policy
+    many = {"Root": [{f"g{i:02d}": {"item": {f"f{i}": i}, f"own{i}": 1} for i in range(45)}]}
+    cases.append((many, "pydantic", "flat", {}))
+    cases.append((many, "dataclasses", "flat", {}))
     r = run_cases(cases, oracle_c03, "c03")
-    r["bound"] = "8 structured + seeded key-style inputs (12 realistic key styles incl. keywords/builtins/non-ASCII) x 5 frameworks x 2 layouts x converter/metadata/unicode options; compile+exec with a sqlmodel stub"
+    r["bound"] = "one 91-model input with 45 equally named models + 8 structured + seeded key-style inputs (12 realistic key styles incl. keywords/builtins/non-ASCII) x 5 frameworks x 2 layouts x converter/metadata/unicode options; compile+exec with a sqlmodel stub"
     r["function"] = "generate_code / compose_models(_flat) / prepare_label / fix_name_duplicates"
     return r
 
@@ -361,6 +365,40 @@ def c01_pydantic(tier, seed):
     return r
 
 
+def oracle_two_generators(case):
+    """literal limits are per generator object: two generators of one class that are alive at the same time each render with their own
+    limit, whatever the order in which they were constructed and rendered"""
+    fw, la, lb, order = case
+    from .common import GENERATORS
+    reg, gen, roots = infer({"Root": [{"s": "asc"}, {"s": "desc"}, {"s": "q\"uote"}]})
+    model = roots["Root"].type
+    cls = GENERATORS[fw]
+    ga = cls(model, max_literals=la)
+    gb = cls(model, max_literals=lb)
+    outs = {}
+    for name, g in ((("a", ga), ("b", gb)) if order == "ab" else (("b", gb), ("a", ga))):
+        outs[name] = g.generate()[1]
+    for name, lim in (("a", la), ("b", lb)):
+        want = 3 < lim and fw != "attrs"
+        if ("Literal[" in outs[name]) != want:
+            return f"{fw}: generator built with max_literals={lim} (other one: {lb if name == 'a' else la}, render order {order}) emitted {'a Literal' if 'Literal[' in outs[name] else 'str'} for 3 observed strings"
+    return None
+
+
+@bounded("C02", "literal_limit_is_per_generator")
+def c02_two_generators(tier, seed):
+    cases = [(fw, la, lb, o) for fw in ("base", "pydantic", "dataclasses", "attrs", "sqlmodel") for la, lb in ((10, 0), (0, 10), (2, 10), (10, 2), (4, 3)) for o in ("ab", "ba")]
+    r = run_cases(cases, oracle_two_generators, "two_generators")
+    r["bound"] = "5 frameworks x 5 pairs of limits x 2 render orders, two generator objects alive at once, 3 observed strings"
+    r["function"] = "GenericModelCodeGenerator.__init__ (per-object options) / StringLiteral.to_typing_code"
+    return r
+
+
+@bounded("C10", "literal_limit_is_per_generator")
+def c10_two_generators(tier, seed):
+    return c02_two_generators(tier, seed)
+
+
 # ------------------------------------------------------------------------------------------------ C10
 ALPHA = ["a", "b", '"', "\\", "\n", ",", "é", "😀", "'"]
 
@@ -435,7 +473,8 @@ def c10(tier, seed):
 
 
 # ------------------------------------------------------------------------------------------------ C11
-C11_KEYS = ["userId", "user_name", "last-login", "class", "list", "Type", "a\"b", "a\\b", "naïve", "straße", "x1y", "über-cool", "ключ1a", "k'q"]
+C11_KEYS = ["userId", "user_name", "last-login", "class", "list", "Type", "a\"b", "a\\b", "naïve", "straße", "x1y", "über-cool", "ключ1a", "k'q",
+            "cafe\u0301", "\u212bngstrom", "ohm\u2126", " lead", "trail ", "tab\there"]
 
 
 def oracle_c11(case):
@@ -575,6 +614,13 @@ def c11_separators(tier, seed):
 def c03_separators(tier, seed):
     r = c11_separators(tier, seed)
     r["function"] = "models/utils.indent, _generate_code (module must compile and keep its string constants)"
+    return r
+
+
+@bounded("C10", "line_separator_characters_in_nested_models")
+def c10_separators(tier, seed):
+    r = c11_separators(tier, seed)
+    r["function"] = "models/utils.indent (a Literal member in an indented class is still the observed string)"
     return r
 
 
@@ -762,7 +808,7 @@ def c18(tier, seed):
     return r
 
 
-ORACLES = {"c11_separators": lambda c: oracle_c11_separators(tuple(c)), "c11_classes": lambda c: oracle_c11_classes(tuple(c)), "c03": oracle_c03, "c04": oracle_c04, "c10": oracle_c10, "c11": oracle_c11, "c12": oracle_c12, "c18": oracle_c18}
+ORACLES = {"two_generators": lambda c: oracle_two_generators(tuple(c)), "c11_separators": lambda c: oracle_c11_separators(tuple(c)), "c11_classes": lambda c: oracle_c11_classes(tuple(c)), "c03": oracle_c03, "c04": oracle_c04, "c10": oracle_c10, "c11": oracle_c11, "c12": oracle_c12, "c18": oracle_c18}
 
 
 def replay(w):
